@@ -57,48 +57,29 @@ func isMaxReqLen(info *types.Info, e ast.Expr) bool {
 
 func ruleS1(r *Run) {
 	p := r.P
-	// entries: every function of a transport package that hands received bytes to the service
-	// (calls Service.Handle / Handler.run / Handler.task) and is not itself one of those dispatch
-	// targets. On the reference tree these are the six functions of s1Entries; a receive loop whose
-	// per-frame part was split off into a helper is found under the helper's name.
+	// entries: every function of a transport package that hands received bytes (not its own
+	// parameter) to the service, directly or through a forwarder (dispatchSet in rules_g.go). On the
+	// reference tree these are the six functions of s1Entries.
 	type s1Entry struct {
 		pkg string
 		fd  *ast.FuncDecl
 	}
 	var entries []s1Entry
 	seenPkg := map[string]bool{}
+	dsets := map[string]*dispatchSet{}
 	for _, en := range s1Entries {
 		if seenPkg[en.pkg] {
 			continue
 		}
 		seenPkg[en.pkg] = true
-		pk := p.Pkg(en.pkg)
-		if pk == nil {
+		ds := p.dispatchSetOf(en.pkg)
+		if ds == nil {
 			r.Undec("limit before dispatch "+en.pkg, 0, "package not found")
 			continue
 		}
-		for _, file := range pk.Syntax {
-			for _, d := range file.Decls {
-				fd, ok := d.(*ast.FuncDecl)
-				if !ok || fd.Body == nil || fd.Name.Name == "run" || fd.Name.Name == "task" {
-					continue
-				}
-				has := false
-				ast.Inspect(fd.Body, func(n ast.Node) bool {
-					if call, ok := n.(*ast.CallExpr); ok {
-						if f := Callee(pk.TypesInfo, call); f != nil && p.InRepo(f) {
-							name := p.FuncName(f)
-							if name == "rpc/core.Service.Handle" || strings.HasSuffix(name, ".Handler.run") || strings.HasSuffix(name, ".Handler.task") {
-								has = true
-							}
-						}
-					}
-					return true
-				})
-				if has {
-					entries = append(entries, s1Entry{en.pkg, fd})
-				}
-			}
+		dsets[en.pkg] = ds
+		for _, fd := range ds.entries {
+			entries = append(entries, s1Entry{en.pkg, fd})
 		}
 	}
 	for _, en := range entries {
@@ -113,8 +94,7 @@ func ruleS1(r *Run) {
 			if f == nil || !p.InRepo(f) {
 				return nil, false
 			}
-			name := p.FuncName(f)
-			if name != "rpc/core.Service.Handle" && !strings.HasSuffix(name, ".Handler.run") && !strings.HasSuffix(name, ".Handler.task") {
+			if ds := dsets[en.pkg]; ds == nil || !ds.targets[f] {
 				return nil, false
 			}
 			for i := len(call.Args) - 1; i >= 0; i-- {
